@@ -194,13 +194,15 @@ def clause_reset_unconditional(R, key):
          where=rst.span)
 
 
-def rule_reset(R):
+def clause_fresh_reset(R, prefix):
+    """where the session reset sits in the handshake: only on the edge where the CONNACK reports no session, on every
+    path from there, and before the handshake can fail for any other reason"""
     f = R.f
     call, hb, hcode = roles.handshake(f)
     rst = outq.session_reset(f)
     R.touch(rst)
     sps = sp_switches(hcode)
-    R.floor("reset/session-present-tests", len(sps), 1, "tests of CONNACK session_present in the handshake")
+    R.floor("%s/session-present-tests" % prefix, len(sps), 1, "tests of CONNACK session_present in the handshake")
     rcalls = outq.calls_to(f, hcode, rst)
     # reset exactly on the false edge: every path from the false edge of the first test reaches reset before return,
     # and reset is unreachable from the true edge without passing a false edge
@@ -209,14 +211,14 @@ def rule_reset(R):
     ok = bool(rcalls) and bool(f_edges)
     if ok:
         ok, _ = hcode.must_pass([0], [c.bb for c in rcalls], via_edges=f_edges)
-    R.ob("reset/only-if-no-session", ok,
+    R.ob("%s/only-if-no-session" % prefix, ok,
          "the session reset runs only on the edge where the CONNACK reports no session", where=rcalls[0].span if rcalls else hb.span)
     first = min(sps, key=lambda si: si["bb"]) if sps else None
     ok2 = False
     if first is not None and rcalls:
         # from the first false edge every path to a return passes the reset
         ok2, off = hcode.must_pass([first["edges"][False]], hcode.returns, via_blocks=[c.bb for c in rcalls])
-    R.ob("reset/always-if-no-session", ok2,
+    R.ob("%s/always-if-no-session" % prefix, ok2,
          "once the CONNACK reported no session, every path to the end of the handshake performs the reset",
          where=hb.span)
     # nothing can fail between accepting the reason code and acting on session_present
@@ -227,10 +229,23 @@ def rule_reset(R):
         okt = si["edges"].get("Ok")
         if okt is not None and first is not None:
             ok3, off = hcode.must_pass([okt], hcode.returns, via_blocks=[first["bb"]])
-    R.ob("reset/before-any-failure", ok3,
+            # ... and the reset itself (not only the test) comes before anything that can fail
+            if ok3 and rcalls and first["edges"].get(False) is not None:
+                fail_free = True
+                for bb in hcode.between([first["edges"][False]], [c.bb for c in rcalls]):
+                    if bb in hcode.returns:
+                        fail_free = False
+                ok3 = fail_free and hcode.must_pass([first["edges"][False]], hcode.returns, via_blocks=[c.bb for c in rcalls])[0]
+    R.ob("%s/before-any-failure" % prefix, ok3,
          "after the CONNACK reason code was accepted, session_present is acted upon before the handshake can fail for "
          "any other reason (otherwise a garbled CONNACK that reports no session leaves stale in-flight state behind and "
          "the next CONNECT asks to resume)", where=hb.span)
+    return hb, hcode, rst, f_edges, t_edges
+
+
+def rule_reset(R):
+    f = R.f
+    hb, hcode, rst, f_edges, t_edges = clause_fresh_reset(R, "reset")
     # what the reset does
     clr = outq.role_fn(f, "clear")
     R.ob("reset/clears-outbound", bool(outq.calls_to(f, rst, clr)), "the reset discards all outbound in-flight state", where=rst.span)
@@ -270,8 +285,16 @@ def rule_replay_first(R):
         ops.clause_drain_before_alloc(R, "replay-first", op)
 
 
+def rule_replay(R):
+    """on a resumed session every unacknowledged packet is retransmitted whole: the re-arm reached from Session::connect
+    resets every entry of every queue, whatever state the entry was left in (shared with C01)"""
+    from .c01 import rule_replay as _r
+    _r(R)
+
+
 def run(R):
     R.rule("wire", rule_wire)
     R.rule("mark", rule_mark)
     R.rule("reset", rule_reset)
     R.rule("replay-first", rule_replay_first)
+    R.rule("replay", rule_replay)
